@@ -376,6 +376,7 @@ class Runner:
                 # the call that should have returned this action was aborted by a non-Exception from a destination:
                 # the program holds no such object; it ends here
                 self.env.abort = True
+                self.env.recording = False
                 self.env.done.put(("op", self.c))
                 raise _Abort()
             if op["op"] == "Exit":
@@ -493,6 +494,32 @@ class Runner:
                 if (op["i"] + env.wit) % 2:
                     tid = tid.decode("ascii")
                 env.acts.append(Action.continue_task(task_id=tid, sa=VAL["sa"]))
+            elif name == "Preserve":
+                from eliot import preserve_context
+                sentinel = object()
+
+                def f(a, k=None, _s=sentinel):
+                    log_message(message_type="m", mf=VAL["mf"])
+                    return (_s, a, k)
+                pres = preserve_context(f)
+                if current_action() is None and pres is not f:
+                    v = "wrongret"
+                env.ids.append([pres, sentinel, current_action() is not None, False])
+            elif name == "CallPreserved":
+                from eliot._action import TooManyCalls
+                entry = env.ids[op["i"] - 1]
+                pres, sentinel, had_ctx, called = entry
+                arg = object()
+                fresh = had_ctx and not called
+                entry[3] = True
+                if fresh:
+                    env.acts.append(None)          # the continued action lives inside the callable: the program has no handle on it
+                try:
+                    r = pres(arg, k=op["i"])
+                    if not (isinstance(r, tuple) and r[0] is sentinel and r[1] is arg and r[2] == op["i"]):
+                        v = "wrongret"
+                except TooManyCalls:
+                    v = "toomany"
             elif name == "Spawn":
                 r = Runner(env, op["c2"])
                 env.runners[op["c2"]] = r
@@ -567,6 +594,20 @@ def forest_of(env):
                     node.status or "?", [proj(ch) for ch in node.children]]
         return ["msg", node.contents.get("message_type", "?"), "", []]
 
+    if env.prog.get("shuffle"):
+        # both sides' logs merged in any order must parse to the same trees (C06 / C09)
+        import random as _r
+        rng = _r.Random(env.prog.get("wit", 0))
+        for _ in range(env.prog["shuffle"]):
+            perm = list(decoded)
+            rng.shuffle(perm)
+            try:
+                other = list(Parser.parse_stream(perm))
+            except Exception as e:
+                return None, filewhy, "shuffled_" + type(e).__name__
+            if sorted((t.root().task_uuid for t in other)) != sorted((t.root().task_uuid for t in tasks)) or \
+                    {t.root().task_uuid: t for t in other} != {t.root().task_uuid: t for t in tasks}:
+                return None, filewhy, "merge_order_dependent"
     roots = {}
     try:
         for t in tasks:
